@@ -96,6 +96,7 @@ func TestC02(t *testing.T) {
 			l := genLayout(t, o)
 			return genHistory(t, l, histGenOpts{MaxOps: 25, FuturePct: 5, StaleNamed: true, Reopen: true})
 		},
-		Run: runC02,
+		Run:  runC02,
+		Trim: trimHist,
 	})
 }
